@@ -29,7 +29,7 @@ func genRun(g *hx.Gen, fam int) string {
 			// numbers written with leading zeros are decimal numbers
 			"010:" + hx.HexS("slot-ten") + "+03:" + hx.HexS("slot-three"), "0010:" + hx.HexS("ten") + "+8:" + hx.HexS("eight") + "+001:" + hx.HexS("one")})
 	}
-	f["ca"] = g.Pick([]string{"certs:1:1", "certs:1:1", "certs:2:2", "certs:3:1", "certs:2:4", "certs:0:0", "certs:4:0", "plain", "foreign"})
+	f["ca"] = g.Pick([]string{"certs:1:1", "certs:1:1", "certs:2:2", "certs:3:1", "certs:2:4", "certs:0:0", "certs:4:0", "plain", "foreign", "mixed:1:0", "mixed:0:1", "mixed:2:1", "mixed:1:0"})
 	switch fam {
 	case 0: // success paths
 	case 1: // authentication failures
